@@ -17,6 +17,7 @@ func init() {
 	register("C19_RulesExact", C19_RulesExact)
 	register("C19_ConfirmFields", C19_ConfirmFields)
 	register("C19_Register", C19_Register)
+	register("C19_HasherExact", C19_HasherExact)
 }
 
 // C19_TallyCharacters (K1): the real tallyCharacters against a reference classification, for
@@ -158,3 +159,7 @@ func C19_Register() {
 		verif.Assert(hasC && c == p, "the password confirmation was enforced")
 	}
 }
+
+// C19_HasherExact: "the stored password is a hash of the submitted one" for the shipped bcrypt
+// hasher (the exploration of C06_HasherExact).
+func C19_HasherExact() { C06_HasherExact() }
